@@ -75,7 +75,7 @@ def cases(draw):
         uc = draw(st.lists(st.sampled_from(names), max_size=2, unique=True)) if draw(st.integers(0, 9)) < 3 else []
         return {"kind": "grammar", "g": g, "cfg": cfg, "inputs": texts, "userclasses": sorted(uc),
                 # user classes may be container-like: instances that are falsy (__len__ == 0 / __bool__ False)
-                "falsy": draw(st.sampled_from([None, None, "len", "bool"])) if uc else None,
+                "falsy": draw(st.sampled_from([None, None, "len", "bool", "eq"])) if uc else None,
                 "queries": draw(st.lists(queries(names), min_size=3, max_size=3))}
     return {"kind": "classes", "model": draw(M.class_models(depth=2, max_top=3)),
             "queries": draw(st.lists(queries(["Package", "Cls", "Attr", "Model"]), min_size=3, max_size=3))}
@@ -248,6 +248,10 @@ def evaluate(case):
                 ns["__len__"] = lambda self: 0
             elif case.get("falsy") == "bool":
                 ns["__bool__"] = lambda self: False
+            elif case.get("falsy") == "eq":
+                # value equality: all instances of the class compare equal (identity must decide in traversals)
+                ns["__eq__"] = lambda self, other: type(other) is type(self)
+                ns["__hash__"] = lambda self: 7
             classes.append(type(n, (object,), ns))
     try:
         mm = c01.make_metamodel(g, cfg, classes=classes)
